@@ -78,6 +78,11 @@ THEOREMS = [
 ]
 
 
+# ROUND 6: the callee guard is a theorem (lib/props/procinv_util.py)
+import procinv_util as _pv
+THEOREMS = THEOREMS + [t for t in _pv.COMMON_THEOREMS if t not in THEOREMS] + _pv.FAILING_EXT + ['Marwood.Proofs.C13.sliced_value_eq_uninterrupted_closed', 'Marwood.Proofs.C13.sliced_error_eq_uninterrupted_closed']
+META["note"] = META["note"] + _pv.NOTE + ' C13: sliced_value_eq_uninterrupted_closed / sliced_error_eq_uninterrupted_closed (T13.3 from VmOk and PInv of the initial state).'
+
 def nontrivial(req, impl):
     # a slice trace is non-trivial when the evaluation was actually interrupted at least once
     return req.startswith("slices") and " p" in impl
